@@ -16,6 +16,7 @@ type profile struct {
 	Prefill      bool    `json:"prefill"`              // start from a fully covered key space
 	Stores       int     `json:"stores"`               // peers live on stores 1..Stores (at most 8)
 	Density      float64 `json:"density"`              // target: live regions / boundary intervals
+	Quiet        int     `json:"quiet,omitempty"`      // the first n operations load the world the way a start-up does: no store-record refresh, sparse comparisons
 	MacroEach    int     `json:"macro_each,omitempty"` // a store-wide burst (evacuate / return) about every n-th operation (0 = never)
 	NearEach     int     `json:"near_each"`            // lookups around the touched range every n-th operation
 	FullEach     int     `json:"full_each"`            // sampled broad comparison every n-th operation
@@ -72,7 +73,10 @@ func newGen(rng *rand.Rand, prof profile) *gen {
 		}
 	} else {
 		for len(set) < prof.Keys {
-			switch rng.Intn(4) {
+			switch rng.Intn(5) {
+			case 4:
+				// names that are prefixes of each other (k1, k10, k100, k1000): their byte order is not numeric
+				set[hexkey(fmt.Sprintf("k%d", rng.Intn(4*prof.Keys)))] = true
 			case 0:
 				set[hexkey(fmt.Sprintf("t%05d", rng.Intn(100000)))] = true
 			case 1:
